@@ -1,3 +1,5 @@
+//go:build !no_c03
+
 package props
 
 import (
